@@ -41,6 +41,12 @@ _AXES = {}          # id(DenseArgvals) -> axes descriptor [[token, n], ...]
 
 
 def _grid(tok, n):
+    if tok >= 100:
+        # same number of points and same end points as the grid of token tok - 100, other interior points
+        g = _grid(tok - 100, n)
+        if n >= 3:
+            g[1:-1] += 1.0 / 32
+        return g
     return float(tok) + np.arange(n, dtype=float) / 8.0
 
 
@@ -451,6 +457,14 @@ def run_history(ops):
         cur = new
         if isinstance(cur, IrregularFunctionalData) and len(cur.values) == 0:
             return None, None       # empty irregular data: n_dimension is undefined (not generated, see notes)
+        if out == "ok" and o["op"] in ("set_argvals", "construct") and not isinstance(cur, MultivariateFunctionalData):
+            # an accepted assignment of sampling points: the standardised points are those of the NEW points
+            try:
+                if not (cur.argvals_stand == cur.argvals.normalization()):
+                    mon.append(f"step {j} ({o['op']}): the standardised sampling points do not track the sampling points "
+                               f"(argvals_stand is not the normalisation of the new argvals)")
+            except Exception as e:  # noqa: BLE001
+                mon.append(f"step {j} ({o['op']}): comparing argvals_stand with the normalised argvals raised {type(e).__name__}")
         ob = observe(cur)
         if ob is None:
             mon.append(f"step {j} ({o['op']}): an observer raised on the resulting object")
@@ -633,6 +647,9 @@ def gen_op(rng, cur, valid):
         k = _pick(rng, ["set_argvals", "set_values", "set_stand", "index", "concat", "set_values", "set_argvals"])
         if k in ("set_argvals", "set_stand"):
             a = {"t": "dense", "axes": [[int(rng.integers(1, 6)), m] for m in pts]}
+            if valid and k == "set_argvals" and rng.uniform() < 0.4:
+                # same size, same end points as the current grid, other interior points
+                a = {"t": "dense", "axes": [[(t + 100 if t < 100 else t - 100), m] for t, m in axes]}
             if not valid:
                 how = int(rng.integers(4))
                 if how == 0:
@@ -877,6 +894,7 @@ def alphabets():
     dn = [{"op": "construct", "kind": "dense", "a": d1, "v": {"t": "dense", "shape": [3, 5]}},
           {"op": "construct", "kind": "dense", "a": d1, "v": {"t": "dense", "shape": [3, 4]}},
           {"op": "set_argvals", "a": {"t": "dense", "axes": [[2, 5]]}}, {"op": "set_argvals", "a": {"t": "dense", "axes": [[3, 4]]}},
+          {"op": "set_argvals", "a": {"t": "dense", "axes": [[101, 5]]}},
           {"op": "set_argvals", "a": {"t": "wrong", "how": "dict"}},
           {"op": "set_values", "v": {"t": "dense", "shape": [2, 5]}}, {"op": "set_values", "v": {"t": "dense", "shape": [2, 4]}},
           {"op": "set_values", "v": {"t": "wrong", "how": "ndarray"}},
